@@ -56,6 +56,8 @@ SEQ = {
     "while": ["lp : while v < 10 loop", "  v := v + 1;", "  next lp when v = 3;", "end loop lp;"],
     "loop": ["loop", "  exit;", "end loop;"],
     "wait": ["wait for 10 ns;"],
+    "waiton": ["wait on a, b until c = '1' for 10 ns;"],
+    "waitu": ["wait until rising_edge(clk);"],
     "assert": ["assert v < 5 report \"x\" severity warning;"],
     "report": ["report \"hello\" severity note;"],
     "null": ["null;"],
